@@ -16,6 +16,8 @@ RULE = ('EconSpecs as in C01 x a permutation of the constructor calls (drawn as 
         'Non-trivial: the permutation puts at least one market or tax-flow object before a sector it links (the business '
         'for a labour/goods market, a household for the tax flow). Distinct: sha1 of (spec, keys).')
 ASSUMPTIONS = [
+    'family real-solver: k=0 values must be identical (the time-zero constant propagation is an order-independent closure); '
+    'k>=1 values within 1e-3*max(1,|x|) (solver tolerance 1e-6; summation order may change the sweep count)',
     'countries are created in the same order in both builds; only the sector declarations are permuted',
     'equality is exact (rational numbers): the two systems are required to have the same solution, not the same text',
 ]
@@ -84,7 +86,76 @@ def run(case_):
     return {'nontrivial': nt, 'labels': labels + (['market/flow-before-linked-sector'] if nt else [])}
 
 
-FAMILIES = [Family('permuted-declarations', case, run, quick=256, thorough=8000)]
+# ---------------------------------------------------------------------------------------------------
+# The same comparison through the REAL solver (its k=0 constant propagation and its iteration read the equations in
+# text order, i.e. in declaration order), with a chain of user-defined constants running across three sectors.
+@st.composite
+def real_case(draw):
+    spec = draw(econ.economy(zones=(1, 1), horizon=(2, 2), gold=False, links=False))
+    keys = draw(st.lists(st.integers(0, 11), min_size=6, max_size=14))
+    roles = []
+    c = spec['zones'][0]['countries']
+    for ci, cc in enumerate(c):
+        if cc['gov'] is not None:
+            roles.append([0, ci, 'gov'])
+        if cc['tax'] is not None:
+            roles.append([0, ci, 'tax'])
+        if cc['hh']:
+            roles += [[0, ci, 'hh0'], [0, ci, 'bus'], [0, ci, 'goods']]
+    chain = {'roles': [draw(st.sampled_from(roles)) for _ in range(3)],
+             'w': econ.dec2(draw(st.integers(1, 900))), 'a': econ.dec2(draw(st.integers(1, 900))),
+             'zero': draw(st.sampled_from([True, True, False]))}
+    return {'spec': spec, 'keys': keys, 'chain': chain}
+
+
+def run_real(case_):
+    spec = case_['spec']
+    ch = case_['chain']
+
+    def hooks(built):
+        S = built.sectors
+        sx, sz, sw = [S[tuple(r)] for r in ch['roles']]
+        sw.AddVariable('CHAIN_W', 'user constant', ch['w'])
+        off = ('%s*%s' % (ch['a'], ch['w'])) if ch['zero'] else '1.0'
+        sz.AddVariable('CHAIN_Z', 'user constant depending on another sector', '%s*%s - %s' % (ch['a'], sw.GetVariableName('CHAIN_W'), off))
+        sx.AddVariable('CHAIN_X', 'user constant two sectors deep', '2.0 + 10*%s' % sz.GetVariableName('CHAIN_Z'))
+        sx.AddVariable('LAG_CHAIN_X', 'its lag', 'CHAIN_X(k-1)')
+
+    K = spec['horizon']
+    b1 = econ.build(spec, maxtime=K, hooks=hooks)
+    b2 = econ.build(spec, order_seed=case_['keys'], maxtime=K, hooks=hooks)
+    labels, feats = c01.classify(spec)
+    names = [type(b.error).__name__ if b.error is not None else 'ok' for b in (b1, b2)]
+    if 'ConvergenceError' in names:
+        raise Reject('no convergence (%s/%s)' % tuple(names))
+    if names[0] != names[1]:
+        raise Violation('C08/real-outcome-differs', 'canonical order: %s; permuted order %r: %s (%s)' %
+                        (names[0], b2.decl_order, names[1], b2.error or b1.error))
+    if names[0] != 'ok':
+        raise Reject('both orders raise ' + names[0])
+    t1, t2 = b1.model.EquationSolver.TimeSeries, b2.model.EquationSolver.TimeSeries
+    if set(t1.keys()) != set(t2.keys()):
+        raise Violation('C08/real-variable-set', 'only canonical %r, only permuted %r' %
+                        (sorted(set(t1) - set(t2))[:5], sorted(set(t2) - set(t1))[:5]))
+    for v in t1:
+        if t1[v][0] != t2[v][0]:
+            raise Violation('C08/real-k0-differs', '%s at k=0: canonical %r, permuted %r (declaration order %r)' %
+                            (v, t1[v][0], t2[v][0], ['%d.%d.%s' % x for x in b2.decl_order]))
+    for k in range(1, K + 1):
+        scale = max([1.0] + [abs(t1[v][k]) for v in t1])
+        for v in t1:
+            if not abs(t1[v][k] - t2[v][k]) <= 1e-3 * scale:
+                raise Violation('C08/real-value-differs', '%s at k=%d: canonical %r, permuted %r (declaration order %r)' %
+                                (v, k, t1[v][k], t2[v][k], ['%d.%d.%s' % x for x in b2.decl_order]))
+    distinct_sectors = len(set(tuple(r) for r in ch['roles']))
+    return {'nontrivial': distinct_sectors >= 2 and moved_before(b2.decl_order),
+            'labels': labels + ['chain-sectors:%d' % distinct_sectors, 'zero-link' if ch['zero'] else 'nonzero-link']}
+
+
+FAMILIES = [
+    Family('permuted-declarations', case, run, quick=256, thorough=8000),
+    Family('real-solver', real_case, run_real, quick=160, thorough=4000),
+]
 
 MANIFEST_INFO = {
     'level_text': 'Metamorphic exploration over construction histories: each generated economy is built in the canonical and '
